@@ -26,6 +26,7 @@ def plan(tier, seed):
     n, per = (16, 30) if tier == 'quick' else (64, 100)
     specs = [{'kind': 'gen', 'seed': s, 'count': per} for s in common.shard_seeds(seed, n)]
     specs.append({'kind': 'upstream'})
+    specs += [{'kind': 'examples', 'seed': seed * 100 + j} for j in range(4 if tier == 'quick' else 16)]
     return specs
 
 
@@ -96,9 +97,101 @@ def run_shard(spec):
         for name, msg in r['failed'].items():
             runner.fail(res, 'UPSTREAM', f"author's expectation {name} fails on the SVM: {msg}", {'upstream_test': name})
         return res
+    if spec['kind'] == 'examples':
+        run_examples(res, spec['seed'])
+        return res
     rng = random.Random(spec['seed'])
     for i in range(spec['count']):
         s = spec['seed'] * 100003 + i
         prog, args = TimeGen(s).program()
         check_program(res, prog, args, rng, f'time:{s}')
     return res
+
+
+# ----------------------------------------------------------------------------
+# examples/*.hid as time-travel algorithms with harness-computed oracles
+def _decimal_expect(num, den):
+    ip, rem = divmod(num, den)
+    digits, seen = [], {}
+    while rem and rem not in seen:
+        seen[rem] = len(digits)
+        rem *= 10
+        digits.append(str(rem // den))
+        rem %= den
+    if not rem:
+        frac = ''.join(digits)
+        return f'{num} / {den} = {ip}' + (f'.{frac}' if frac else '') + '\n'
+    k = seen[rem]
+    return f'{num} / {den} = {ip}.' + ''.join(digits[:k]) + '(' + ''.join(digits[k:]) + ')\n'
+
+
+def _is_prime(n):
+    return n >= 2 and all(n % d for d in range(2, int(n ** 0.5) + 1))
+
+
+def _factor_ok(line, n):
+    """'Factorization of n: ((2 * 2) * 3)' or 'n -- it's prime!'"""
+    head = f'Factorization of {n}: '
+    if not line.startswith(head):
+        return False
+    rest = line[len(head):]
+    if rest.endswith(" -- it's prime!"):
+        return rest[:-len(" -- it's prime!")] == str(n) and _is_prime(n)
+    import re
+    leaves = [int(x) for x in re.findall(r'\d+', rest)]
+    prod = 1
+    for x in leaves:
+        prod *= x
+    return len(leaves) >= 2 and prod == n and all(_is_prime(x) for x in leaves) and rest.count('(') == rest.count(')') == len(leaves) - 1
+
+
+def example_cases(r):
+    import os
+    from .. import env
+    ex = os.path.join(env.REPO, 'examples')
+
+    def src(name):
+        with open(os.path.join(ex, name)) as f:
+            return f.read()
+    for _ in range(8):
+        v = [r.randint(-50, 50) for _ in range(r.randint(1, 7))]
+        yield 'max.hid', src('max.hid'), [str(x) for x in v], lambda out, v=v: out == f'Max value: {max(v)}\n'
+        yield 'optional_max.hid', src('optional_max.hid'), [str(x) for x in v], lambda out, v=v: out == f'Max value: {max(v)}\n'
+    yield 'optional_max.hid', src('optional_max.hid'), [], lambda out: out == 'Empty array\n'
+    for _ in range(6):
+        v = [r.randint(-20, 99) for _ in range(r.randint(0, 6))]
+        yield 'mergesort.hid', src('mergesort.hid'), [str(x) for x in v], lambda out, v=v: out == 'Sorted: [' + ', '.join(map(str, sorted(v))) + ']\n'
+    for _ in range(4):
+        v = [r.choice([2, 3, 4, 6, 7, 9, 12, 15, 16, 21, 25, 30, 49, 97]) for _ in range(r.randint(1, 2))]
+        yield 'factor.hid', src('factor.hid'), [str(x) for x in v], \
+            lambda out, v=v: out.endswith('\n') and len(out.splitlines()) == len(v) and all(_factor_ok(l, n) for l, n in zip(out.splitlines(), v))
+    for _ in range(8):
+        n, d = r.randint(0, 40), r.choice([1, 2, 3, 4, 6, 7, 8, 9, 11, 12, 13, 14, 25, 27])
+        yield 'decimal.hid', src('decimal.hid'), [str(n), str(d)], lambda out, n=n, d=d: out == _decimal_expect(n, d)
+    yield 'sat.hid', src('sat.hid'), [], lambda out: out == 'Satisfying solution:\nX1 = false\nX2 = false\nX3 = true\n'
+    yield 'hello.hid', src('hello.hid'), [], lambda out: out == 'Hello world!\nSome numbers: 1 2 3 4 5 6 7 8 9 10\n'
+
+
+def run_examples(res, seed):
+    r = random.Random(seed)
+    for name, source, args, ok in example_cases(r):
+        for word in (2, 3):
+            res['evaluations'] += 1
+            run = diff.compile_and_run(source, args, word=word, stack=500, max_steps=6_000_000)
+            case = diff.case_dict(source, args, word, 500, gen='example:' + name)
+            if run.kind != 'ok':
+                runner.fail(res, 'EXAMPLE', f'{name} {args}: {run.kind}: {run.detail}', case)
+                continue
+            o = run.outcome
+            common.side_observe(res, run)
+            if o.klass == 'TIMEOUT':
+                runner.count(res, 'example_timeouts')
+                continue
+            text = o.out.decode('latin-1')
+            if o.klass != 'WIN' or not ok(text):
+                runner.fail(res, 'EXAMPLE', f'{name} with arguments {args} (word {word}) prints {text[:120]!r} and ends {o.klass}: not what the algorithm must compute',
+                            case, observed=o.brief())
+                continue
+            runner.count(res, 'example_runs_correct')
+            if o.backtracks > 0:
+                res['nontrivial'].append(runner.case_id(name, args, word))
